@@ -104,6 +104,26 @@ def container_status(obs):
     return res
 
 
+def excluded_scenarios(prog, obs):
+    """names of the scenarios (rows) inside the elements on which a hook called .skip() (runprog: cfg["exclude_tag"])"""
+    keys = set(e[1] for e in obs["log"] if e[0] == "excluded")
+    if not keys:
+        return set()
+    out = set()
+    for f in prog["features"]:
+        for it in f["items"]:
+            if it["kind"] == "rule":
+                for x in it["items"]:
+                    for n in _names(x):
+                        if keys & {"F%d" % f["id"], "R%d" % it["id"], "%s%d" % ("S" if x["kind"] == "scenario" else "O", x["id"]), n}:
+                            out.add(n)
+            else:
+                for n in _names(it):
+                    if keys & {"F%d" % f["id"], "%s%d" % ("S" if it["kind"] == "scenario" else "O", it["id"]), n}:
+                        out.add(n)
+    return out
+
+
 def oracle(prog, obs):
     out = []
     if obs.get("crashed"):
@@ -119,15 +139,17 @@ def oracle(prog, obs):
             touched.setdefault(ev[2], []).append(ev)
     reached_all = not cfg.get("stop") and not cfg.get("faults") and not obs.get("aborted")
     selected = {}
+    excluded = excluded_scenarios(prog, obs)
     for name, steps, tags in scenarios_of(prog):
-        sel = eval_expr(e, tags)
+        # (an element a hook excluded with .skip() before it started is treated like a de-selected one)
+        sel = eval_expr(e, tags) and name not in excluded
         selected[name] = sel
         r = res.get(name)
         if r is None:
             continue
         if not sel:
             if name in touched:
-                out.append(("de-selected scenario %s (tags %s) had %s" % (name, sorted(tags), touched[name][0]), "deselected-executed"))
+                out.append(("%s scenario %s (tags %s) had %s" % ("excluded (element.skip() in before_feature)" if name in excluded else "de-selected", name, sorted(tags), touched[name][0]), "deselected-executed"))
             if reached_all and (r["status"] != "skipped" or any(s != "skipped" for s in r["steps"])):
                 out.append(("de-selected scenario %s has status %s, steps %s" % (name, r["status"], r["steps"]), "deselected-not-skipped"))
         elif reached_all:
@@ -182,7 +204,32 @@ def suites(tier, seed):
         p = rc.gen_program(rnd, kinds=KINDS)
         p["cfg"].update(expr=WIP_POOL[i % len(WIP_POOL)], wip_mode=True, stop=True, faults=[])
         cases.append(p)
-    return [{"name": "selection", "cases": cases, "impl": rc.impl_run, "oracle": oracle, "nontrivial": nontrivial,
+    # explicit exclusion: the before_feature hook calls .skip() on every element carrying the tag x9
+    xcases = []
+    for i in range(n // 4):
+        p = rc.gen_program(rnd, kinds=KINDS)
+        p["cfg"].update(expr=(None if i % 3 == 0 else rnd.choice(POOL)), stop=False, faults=[], exclude_tag="x9")
+        if "before_feature" not in p["cfg"]["hooks"] and i % 10:
+            p["cfg"]["hooks"] = list(p["cfg"]["hooks"]) + ["before_feature"]
+        for f in p["features"]:
+            if rnd.random() < 0.05:
+                f["tags"] = f["tags"] + ["x9"]
+            for it in f["items"]:
+                for x in [it] + (it["items"] if it["kind"] == "rule" else []):
+                    if rnd.random() < 0.3:
+                        x["tags"] = x["tags"] + ["x9"]
+                    for ex in x.get("examples", []):
+                        if rnd.random() < 0.2:
+                            ex["tags"] = ex["tags"] + ["x9"]
+        xcases.append(p)
+    excl = {"name": "explicit_exclusion", "cases": xcases, "impl": rc.impl_run, "oracle": oracle,
+            "nontrivial": lambda c, o: any(e[0] == "excluded" for e in o["log"]),
+            "histogram": rc.histogram, "shrink": rc.shrink_program,
+            "bound": "%d seeded random tagged programs whose before_feature hook excludes (element.skip()) every feature / rule / scenario / "
+                     "outline / outline row carrying the tag x9: excluded elements are treated like de-selected ones; runs in which "
+                     "nothing was excluded also go through the Coq model" % len(xcases),
+            "coq": rc.COQ}
+    return [excl, {"name": "selection", "cases": cases, "impl": rc.impl_run, "oracle": oracle, "nontrivial": nontrivial,
              "histogram": rc.histogram, "shrink": rc.shrink_program,
              "bound": "%d seeded random tagged programs over a pool of %d expressions" % (len(cases), len(POOL)),
              "coq": rc.COQ}]
